@@ -96,7 +96,18 @@ def gen_case(ctx, rng):
                 p[k_] = float(max(1, round(v_))) if k_ in ("radius", "width", "height") else float(round(v_))
             elif k_ == "xy_coords":
                 p[k_] = [(float(round(a_)), float(round(b_))) for a_, b_ in v_]
+    # "the named columns of a dataframe": which column holds which coordinate is the caller's choice – the frame's own names need not
+    # be x / y / z, a column NAMED x may hold another axis, and other constraint objects naming other columns may be built in between
+    r_ = rng.random()
+    if r_ < 0.5:
+        axes = None
+    elif r_ < 0.75:
+        perm = rng.sample(["x", "y", "z"], 3)
+        axes = {"x": perm[0], "y": perm[1], "z": perm[2]}
+    else:
+        axes = {"x": "X_mm", "y": "Y_mm", "z": "Z_mm", "_decoys": True}
     return {"shape": kind, "params": p, "loc": loc, "data": data, "ranking": ranking, "_np_scalars": rng.random() < 0.25,
+            "_axes": axes, "_other_objects_built": rng.random() < 0.4,
             "_other_ctor_data": rng.random() < 0.35,
             "_int_params": int_params,
             "_ask_twice": rng.random() < 0.3,
@@ -112,11 +123,23 @@ def build_data(case):
         side = d["side"]
         return np.arange(d["rows"] * side * side, dtype=float).reshape(d["rows"], side * side)
     pts = d["pts"]
-    df = pd.DataFrame({"x": [p[0] for p in pts], "y": [p[1] for p in pts], "z": [p[2] for p in pts], "f": [1.0] * len(pts)})
+    ax = axis_names(case)
+    df = pd.DataFrame({ax["x"]: [p[0] for p in pts], ax["y"]: [p[1] for p in pts], ax["z"]: [p[2] for p in pts], "f": [1.0] * len(pts)})
+    if (case.get("_axes") or {}).get("_decoys"):
+        # normalised coordinates carried along under the plain names: they are not the named axes
+        df["x"] = [7.5 - 2 * p[1] for p in pts]
+        df["y"] = [p[0] * 3 - 1 for p in pts]
     order = case.get("_col_order")
     if order:
-        df = df[order]          # the named columns may sit anywhere in the frame
+        # the named columns may sit anywhere in the frame
+        cols = [{"x": ax["x"], "y": ax["y"], "z": ax["z"], "f": "f"}[c] for c in order] + [c for c in df.columns if c not in (ax["x"], ax["y"], ax["z"], "f")]
+        df = df[cols]
     return df
+
+
+def axis_names(case):
+    a = case.get("_axes") or {}
+    return {"x": a.get("x", "x"), "y": a.get("y", "y"), "z": a.get("z", "z")}
 
 
 def coords_of(case, s):
@@ -132,9 +155,10 @@ def run_real(case):
     data = build_data(case)
     kw = {"data": data}
     if case["data"]["kind"] == "df":
-        kw.update({"X_axis": "x", "Y_axis": "y", "Field": "f"})
+        ax = axis_names(case)
+        kw.update({"X_axis": ax["x"], "Y_axis": ax["y"], "Field": "f"})
         if case["shape"] == "cylinder":
-            kw["Z_axis"] = "z"
+            kw["Z_axis"] = ax["z"]
     p = {k: v for k, v in case["params"].items() if not k.startswith("_")}
     cont = case["params"].get("_container")
     if cont == "list_of_lists":
@@ -171,12 +195,25 @@ def run_real(case):
         # coordinates that count are those of the data handed to get_constraint_indices
         if case["data"]["kind"] == "df":
             other = data.copy()
-            for col in ("x", "y", "z"):
+            for col in axis_names(case).values():
                 other[col] = other[col] * 2 + 3
         else:
             other = np.flipud(np.vstack([data, data])) + 1.0
         kw = dict(kw, data=other)
     obj = cls(**p, **kw)
+    if case.get("_other_objects_built") and case["data"]["kind"] == "df":
+        # the usual multi-constraint workflow: all constraint objects are built first (each naming its own columns), then each is asked
+        ax = axis_names(case)
+        try:
+            U.Circle(center_x=1.0, center_y=2.0, radius=1.5, loc="out", data=data, X_axis=ax["z"], Y_axis=ax["x"], Field="f")
+            U.Line(x1=0.0, x2=1.0, y1=0.0, y2=2.0, data=data, X_axis=ax["y"], Y_axis=ax["z"], Field="f")
+            if case["shape"] != "cylinder":
+                U.Cylinder(center_x=0.0, center_y=0.0, center_z=0.0, radius=1.0, height=1.0, loc="in", axis="X_axis", data=data,
+                           X_axis=ax["y"], Y_axis=ax["z"], Z_axis=ax["x"], Field="f")
+            else:
+                U.Parabola(h=0.0, k=0.0, a=1.0, loc="in", data=data, X_axis=ax["y"], Y_axis=ax["x"], Field="f")
+        except Exception:
+            pass
     rk = np.array(case["ranking"])
     dt = case.get("_rank_dtype")
     if dt and (not len(rk) or int(rk.max()) <= np.iinfo(dt).max):
